@@ -1,6 +1,7 @@
 #!/bin/bash
 # try_seed.sh <patch> <Cxx> [tier]: apply a seeded change to /repo, run the check, undo it.
 PATCH=$1; P=$2; TIER=${3:-quick}
+mkdir -p /tmp/mut2
 cd /repo && git diff --quiet || { echo "/repo not clean"; exit 2; }
 git -C /repo apply $PATCH || { echo "patch does not apply"; exit 2; }
 cd /verif && ./check $P --tier $TIER > /tmp/mut2/try-$P.log 2>&1; rc=$?
